@@ -13,9 +13,12 @@ from common import Check, main_wrapper
 
 def refine_site(site, o):
     """Known crashes are keyed by exception site plus, where the unchanged tree's failures share a sharper condition,
-    that condition - so that a different failure at the same site is still reported. (No site needs a refinement at
-    present: the arena-cache refinement of use_fast_storage_for_feature_maps went with repair C13-36.)"""
-    return site
+    that condition - so that a different failure at the same site is still reported. (The arena-cache refinement of
+    use_fast_storage_for_feature_maps went with repair C13-36; sites inside the helper-arithmetic modules are refined with the
+    calling lowering, see c13_keys.py.)"""
+    import c13_keys
+
+    return c13_keys.refine(site, o)      # helper arithmetic (fp_math / scaling / numeric_util): keyed with the calling lowering
 
 
 def main():
@@ -26,6 +29,9 @@ def main():
     open_pending = pending.register(ck)
     n = 12000 if ck.thorough else 1200
     profiles = ["weird", "mixed", "cpu", "pattern", "lut", "pattern", "weights", "cascade", "weird", "pattern", "elementwise", "pattern"]
+    # quantisation / option extremes on every operator that computes with the quantisation parameters (extremes_gen.py) and
+    # operators kept off the NPU of every kind a rewrite pass reads, --force-symmetric-int-weights cases (reject_gen.py)
+    profiles += ["act_extremes", "act_extremes", "rejected"]
     own = None
     if ck.replay_arg:
         # replays of the regression corpus / the targeted families are compiled by their own workers
